@@ -30,7 +30,7 @@ theorem idStep_ok (pref : Pref) (kn : List Nat) (pos : Nat) (h : pos ≤ kn.leng
   | none => exact ⟨_, rfl⟩
   | step n => exact ⟨_, rfl⟩
   | stored p =>
-    simp only [if_neg (by omega : ¬ pos > kn.length)]
+    simp only [if_neg (by omega : ¬ pos / 2 > kn.length / 2)]
     split
     · exact ⟨_, rfl⟩
     · exact ⟨_, rfl⟩
@@ -133,12 +133,12 @@ theorem getIDLoop_total {keys : List Bytes} {keep : List Bool} {t : Trie1} {queu
               refine ⟨by show i ≤ kn.length; omega, ?_⟩
               show IsLeafId t (rr.firstChild + k)
               apply label0_child_leaf h hasc hsub F k hk'
-              rw [hkl, labelIdxOfKey_eq_labelAt, Descent.labelAt_eq_zero_iff]
+              rw [hkl, labelIdxOfKey_eq_labelAt _ _ _ hwsbig, Descent.labelAt_eq_zero_iff]
               omega
             · next hne =>
               obtain ⟨c, hc, hcfb, _⟩ := F.kid k hk'
               have hlne : rr.labels[k] ≠ 0 := by
-                rw [hkl, labelIdxOfKey_eq_labelAt, Ne, Descent.labelAt_eq_zero_iff]; omega
+                rw [hkl, labelIdxOfKey_eq_labelAt _ _ _ hwsbig, Ne, Descent.labelAt_eq_zero_iff]; omega
               have hfb : i + wordSize rr.big = c.fb := by
                 rw [hcfb]; unfold labelLen wordSize; rw [if_neg hlne]
               rw [hfb]
